@@ -65,6 +65,10 @@ class Ctx:
         self.tier = tier
         t0 = time.time()
         self.P = Program(root).solve()
+        for _phase in range(3):
+            if not self.P.desugar_records():
+                break
+            self.P = Program(root, premodules=self.P).solve()
         missed = self.P.check_resolution()
         if missed:
             raise AnalysisError('call(s) on a possibly-package receiver resolve to nothing: ' + '; '.join(missed))
